@@ -50,9 +50,11 @@ Record case := mk_case {
   (* the call *)
   c_ret : bool; c_rev : bool (* LastInsertIDReversed *); c_op : op; c_base : Z; c_now : Z;
   c_before : list (list goval);
-  (* leaves of the Go struct (walked by the harness) that own no column in the parsed schema,
-     with the values the records held for them: normally none *)
-  c_xkinds : list kind; c_xbefore : list (list goval);
+  (* leaves of the Go struct (walked by the harness) that own no column in the parsed schema, with
+     their bind paths and the values the records held for them: normally only fields SHADOWED by
+     another field mapped to the same column (which field owns the column is decided here, by
+     [owner_of] on the struct tree, never by the harness or by gorm's schema) *)
+  c_xkinds : list kind; c_xpaths : list (list string); c_xbefore : list (list goval);
   (* observed *)
   o_err : bool;
   o_after : list (list goval);                 (* in-memory records after Create *)
@@ -120,6 +122,21 @@ Definition all_representable (c : case) : bool :=
   forallb (fun r => all2 (fun f v => wtb (fd_kind f) (norm (fd_kind f) v) && in_range (fd_kind f) v) (c_fields c) r)
           (c_before c).
 
+(* does the struct leaf at bind path [p] own its column, by the specification's reading of the struct
+   tree?  (a leaf the tree does not know counts as an owner) *)
+Definition path_eqb : list string -> list string -> bool := list_eqb String.eqb.
+Definition must_keep (tree : list fnode) (p : list string) : bool :=
+  match find (fun pc => path_eqb (fst pc) p) (fields_of tree) with
+  | Some pc => match owner_of (fields_of tree) (snd pc) with Some q => path_eqb q p | None => true end
+  | None => true
+  end.
+Definition xleaves_kept (c : case) : bool :=
+  (length (c_xpaths c) =? length (c_xkinds c))%nat
+  && all2 (fun b f => is_nil b ||
+             all3 (fun kp x y => negb (must_keep (c_tree c) (snd kp))
+                                 || goval_eqb (norm (fst kp) x) (norm (fst kp) y))
+                  (combine (c_xkinds c) (c_xpaths c)) b f) (c_xbefore c) (o_xfind c).
+
 Definition spec_holds (c : case) : bool :=
   let fs := c_fields c in
   let n := Z.of_nat (length (c_before c)) in
@@ -128,8 +145,9 @@ Definition spec_holds (c : case) : bool :=
     (o_readerrs c =? 0) && (o_rowcount c =? n)
     (* read back into fresh structs by Find / First / Take: equal field values *)
     && all2 (if is_map_op (c_op c) then rec_eqb fs else rec_eqb_strict fs) (o_after c) (o_find c)
-    (* ... for EVERY field of the struct, also one the schema gave no column of its own *)
-    && all2 (fun b f => is_nil b || all3 (fun k x y => goval_eqb (norm k x) (norm k y)) (c_xkinds c) b f) (c_xbefore c) (o_xfind c)
+    (* ... for EVERY field of the struct that owns a column, also one the schema gave no column of its
+       own; of several fields mapped to one column the owner is the shallowest, first declared *)
+    && xleaves_kept c
     && all2 (if is_map_op (c_op c) then rec_eqb fs else rec_eqb_strict fs) (o_after c) (o_first c)
     && all2 (if is_map_op (c_op c) then rec_eqb fs else rec_eqb_strict fs) (o_after c) (o_take c)
     (* ... and by reloading through the record's own primary key *)
@@ -154,7 +172,7 @@ Definition spec_parts (c : case) : list bool :=
   let fs := c_fields c in
   let n := Z.of_nat (length (c_before c)) in
   [ o_err c; all_representable c; (o_readerrs c =? 0); (o_rowcount c =? n);
-    all2 (rec_eqb fs) (o_after c) (o_find c) && all2 (fun b f => is_nil b || all3 (fun k x y => goval_eqb (norm k x) (norm k y)) (c_xkinds c) b f) (c_xbefore c) (o_xfind c);
+    all2 (rec_eqb fs) (o_after c) (o_find c) && xleaves_kept c;
     all2 (rec_eqb fs) (o_after c) (o_first c);
     all2 (rec_eqb fs) (o_after c) (o_take c) && all2 (rec_eqb fs) (o_after c) (o_bykey c);
     all2 (fun b a => all3 (fun f x y => is_zero (fd_kind f) x || goval_eqb x y) fs b a) (c_before c) (o_after c);
